@@ -30,10 +30,23 @@ fn width(n: usize, thorough: bool) -> usize {
 pub const SCALES: [f64; 3] = [1.0, 8.673617379884035e-19 /* 2^-60 */, 1099511627776.0 /* 2^40 */];
 fn pick_coeffs(cx: &mut Cx, n: usize, thorough: bool) -> (Vec<f64>, f64) {
     // 0: lane-identifier vector x scale; 1: the full cube; 2: small cube {0,1,-1/3} x non-unit scales
-    match cx.choose(3) {
+    match cx.choose(4) {
         0 => {
             let s = *cx.pick(&SCALES);
             (LANE_ID[..n].iter().map(|c| c * s).collect(), s)
+        }
+        3 => {
+            // coefficients of very different sizes inside one polynomial: a leading (or the constant) coefficient 17-20 orders
+            // of magnitude below the rest - negligible by itself, not after multiplication by a large power of knot.x
+            let mut v = LANE_ID[..n].to_vec();
+            let k = cx.choose(4);
+            match k {
+                0 => v[n - 1] *= 1e-19,
+                1 => v[n - 1] = 8e-20,
+                2 => v[0] *= 1e-17,
+                _ => { for c in v.iter_mut().take(n - 1) { *c *= 1e-18; } }
+            }
+            (v, 1.0)
         }
         1 => {
             let w = width(n, thorough);
@@ -206,7 +219,7 @@ pub fn check(thorough: bool, _seed: u64) -> Check {
         }),
         classes: vec![("knot_x_zero", true), ("knot_x_negative", true), ("knot_x_positive", true), ("scaled_by_2^-60_or_2^40", true), ("knot_on_or_next_to_the_unshifted_antiderivative", true)],
         bounds: json!({"degrees": "0..7", "coefficients": format!("lane-identifier vector + cube over the first w of {{0,1,-1,0.1,-1/3,7.25e5}}: w=6 up to degree 4 (5 thorough), w={} above", if thorough {5} else {4}),
-            "knots": "x in {0,2,-2,0.5,-7.3,1e3,1e-17,-1e-17,5e-324,1e5} x y in {0,5,-1e6} (scaled like the coefficients) and y = F0(x)*(1+d), d in {0,2^-52,1e-13,3e-10,1e-6} (knot on / next to the unshifted antiderivative)", "scales": "lane-identifier vector and the cube over {0,1,-1/3} also multiplied by 2^-60 and 2^40", "oracle": "exact rational c_i/(i+1); exact dyadic value of the returned polynomial at knot.x"}),
+            "knots": "x in {0,2,-2,0.5,-7.3,1e3,1e-17,-1e-17,5e-324,1e5} x y in {0,5,-1e6} (scaled like the coefficients) and y = F0(x)*(1+d), d in {0,2^-52,1e-13,3e-10,1e-6} (knot on / next to the unshifted antiderivative)", "coefficient_ratios": "lane-identifier vector with the leading / the constant coefficient 17-20 orders of magnitude below the rest, or all but the leading one", "scales": "lane-identifier vector and the cube over {0,1,-1/3} also multiplied by 2^-60 and 2^40", "oracle": "exact rational c_i/(i+1); exact dyadic value of the returned polynomial at knot.x"}),
     };
     let pairs: Vec<(f64, f64)> = AB.iter().flat_map(|&a| AB.iter().filter(move |&&b| b != a).map(move |&b| (a, b))).collect();
     let np = pairs.len();
@@ -230,11 +243,46 @@ pub fn check(thorough: bool, _seed: u64) -> Check {
         classes: vec![("a<b", true), ("a>b", true)],
         bounds: json!({"degrees": "0..7", "coefficients": "as in the first phase", "(a,b)": "all ordered pairs of distinct values from {-2.5,0,0.3,1,7}", "oracle": "exact rational integral"}),
     };
+    // knots whose abscissa is so large / small that x^degree over- or underflows although every power the evaluation scheme of the
+    // result type forms (x^2, x^4; x^8 only for Poly8) and every term c_i x^(i+1)/(i+1) is an ordinary number
+    let xs_ext: Vec<f64> = vec![1e50, -1e60, 1e76, 1e-50, -1e-70, 3e37];
+    let nxe = xs_ext.len();
+    let extreme = Phase {
+        name: "extreme-knot-abscissae",
+        units: 8 * nxe,
+        split: 1,
+        body: Box::new(move |unit, cx| {
+            let d = unit / nxe;
+            let x = xs_ext[unit % nxe];
+            // the result type Poly(d+1) forms x^8 only for d = 7: keep x^8 in range there
+            if d == 7 && !(x.abs() < 1e38 && x.abs() > 1e-38) {
+                return Ok(());
+            }
+            let amp = [0.0, 1.0, -2.5, 7.0];
+            let c: Vec<f64> = (0..=d)
+                .map(|i| {
+                    let a = *cx.pick(&amp);
+                    let ci = a / x.powi(i as i32 + 1) * (i as f64 + 1.0);
+                    if ci.is_normal() && x.powi(i as i32 + 1).is_normal() { ci } else { 0.0 }
+                })
+                .collect();
+            let knot = Knot { x, y: [0.0, 1.0, -3.5][cx.choose(3)] };
+            if c.iter().filter(|v| **v != 0.0).count() >= 2 {
+                cx.nontrivial();
+            }
+            if cx.sampling() {
+                cx.sample(json!({"degree": d, "coefficients": fjs(&c), "knot": [fj(knot.x), fj(knot.y)]}));
+            }
+            by_degree7!(d, knots_leaf(&c, knot, cx))
+        }),
+        classes: vec![("knot_x_zero", false), ("knot_x_negative", false), ("knot_x_positive", false), ("scaled_by_2^-60_or_2^40", false), ("knot_on_or_next_to_the_unshifted_antiderivative", false)],
+        bounds: json!({"degrees": "0..7", "knot.x": "{1e50,-1e60,1e76,1e-50,-1e-70,3e37} (degree 7: only 3e37, its result type forms x^8)", "coefficients": "c_i = (i+1) a_i / x^(i+1), a_i in {0,1,-2.5,7} (zero when not a normal number): every term of F(knot.x) is of ordinary size", "knot.y": "{0,1,-3.5}"}),
+    };
     Check {
         id: "C07",
         rule: "choice tree: (degree, knot) resp. (degree, (a,b)) unit x one coefficient per lane; each leaf runs the real indefinite / integral / derivative / Segment::integral; non-trivial = >=2 non-zero coefficients (and knot.x not in {0,2} in the first phase)".into(),
         assumptions: vec!["one ulp = distance to the neighbouring float of the returned coefficient".into()],
-        phases: vec![knots, definite],
+        phases: vec![knots, definite, extreme],
         extra: Default::default(),
         controls: vec![],
     }
